@@ -9,7 +9,9 @@ EXTENDS CoerceCatalog, Json
 VARIABLE st
 
 Var(name, i, dm, v) == [name |-> name, tix |-> i, dm |-> dm, val |-> v]
-Case(vm, pos, extra, vars) == [stage |-> "case", vm |-> vm, pos |-> pos, extra |-> extra, vars |-> vars]
+CaseX(vm, pos, host, extra, dupv, dupfirst, vars) ==
+  [stage |-> "case", cat |-> Cat, vm |-> vm, pos |-> pos, host |-> host, extra |-> extra, dupv |-> dupv, dupfirst |-> dupfirst, vars |-> vars]
+Case(vm, pos, extra, vars) == CaseX(vm, pos, 0, extra, Absent, FALSE, vars)
 DMs(i) == IF VarLits[i] = "" THEN {"none"} ELSE {"none", "def"}
 
 SingleCases(i) ==
@@ -20,25 +22,37 @@ SingleCases(i) ==
   \cup {Case(vm, "same", FALSE, <<Var("x", i, dm, Absent)>>) : vm \in {"none", "null"}, dm \in DMs(i)}
   \* an undeclared variable next to it is ignored
   \cup {Case("obj", "same", TRUE, <<Var("x", i, dm, v)>>) : dm \in DMs(i), v \in {Absent, Good(T), Bad(T)}}
-  \* nullable variable with default at a Non-Null position (explicit null is not generated: it is coercible for the
-  \* variable but a field error for the argument, the statement does not say which of the two the gate should report)
+  \* nullable variable with default at a Non-Null position.  An explicit null is coercible for the variable (6.1.2); that
+  \* the argument then is null is a field error of execution (6.4.1), not a reason to refuse the request
   \cup (IF i \in NNPos
-        THEN {Case("obj", "nn", FALSE, <<Var("x", i, "def", v)>>) : v \in (Menu(T, D) \ {VNull}) \cup {Absent}}
+        THEN {Case("obj", "nn", FALSE, <<Var("x", i, "def", v)>>) : v \in Menu(T, D) \cup {Absent}}
              \cup {Case("none", "nn", FALSE, <<Var("x", i, "def", Absent)>>)}
         ELSE {})
 
-PairCases(k) ==
-  LET i == Pairs[k][1]
-      j == Pairs[k][2]
-      n1 == PairNames[k][1]
-      n2 == PairNames[k][2] IN
-  {Case("obj", "same", FALSE, <<Var(n1, i, "none", a), Var(n2, j, "none", b)>>) : a \in PairMenu(VarTypes[i]), b \in PairMenu(VarTypes[j])}
-  \cup {Case("none", "same", FALSE, <<Var(n1, i, "none", Absent), Var(n2, j, "none", Absent)>>)}
-  \cup {Case("obj", "same", FALSE, <<Var(n1, i, "def", a), Var(n2, j, "none", b)>>) : a \in {Absent, VNull}, b \in {Good(VarTypes[j]), Bad(VarTypes[j])}}
+\* the variable is used inside an argument literal
+HostCases(k) ==
+  LET h == Hosts[k] IN
+  {CaseX("obj", "host", k, FALSE, Absent, FALSE, <<Var("x", h.tix, "none", v)>>) : v \in Menu(VarTypes[h.tix], D) \cup {Absent}}
+  \cup {CaseX("none", "host", k, FALSE, Absent, FALSE, <<Var("x", h.tix, "none", Absent)>>)}
 
-GenInit == st \in {[stage |-> "type", tix |-> i] : i \in 1..NTypes} \cup {[stage |-> "pair", k |-> k] : k \in 1..Len(Pairs)}
+\* several variables, every one independently absent / null / good / bad
+RECURSIVE VarTuples(_, _)
+VarTuples(m, j) ==
+  IF j > Len(m.tix) THEN {<<>>}
+  ELSE {<<Var(m.names[j], m.tix[j], "none", a)>> \o r : a \in PairMenu(VarTypes[m.tix[j]]), r \in VarTuples(m, j + 1)}
+MultiCases(k) ==
+  LET m == Multis[k]
+      i == m.tix[1]
+      rest == [j \in 1..(Len(m.tix) - 1) |-> Var(m.names[j + 1], m.tix[j + 1], "none", Good(VarTypes[m.tix[j + 1]]))] IN
+  {Case("obj", "same", FALSE, vs) : vs \in VarTuples(m, 1)}
+  \cup {Case("none", "same", FALSE, [j \in 1..Len(m.tix) |-> Var(m.names[j], m.tix[j], "none", Absent)])}
+  \cup (IF VarLits[i] = "" THEN {} ELSE {Case("obj", "same", FALSE, <<Var(m.names[1], i, "def", a)>> \o rest) : a \in {Absent, VNull}})
+
+GenInit == st \in {[stage |-> "type", tix |-> i] : i \in 1..NTypes} \cup {[stage |-> "multi", k |-> k] : k \in 1..Len(Multis)}
+                  \cup {[stage |-> "host", k |-> k] : k \in 1..Len(Hosts)}
 GenNext == \/ st.stage = "type" /\ st' \in SingleCases(st.tix)
-           \/ st.stage = "pair" /\ st' \in PairCases(st.k)
+           \/ st.stage = "multi" /\ st' \in MultiCases(st.k)
+           \/ st.stage = "host" /\ st' \in HostCases(st.k)
 GenSpec == GenInit /\ [][GenNext]_st
 
 Emit == IF st.stage = "case"
@@ -46,7 +60,8 @@ Emit == IF st.stage = "case"
         ELSE TRUE
 \* printed once: the schema and the variable types, for the driver
 Header == IF st.stage = "type" /\ st.tix = 1
-          THEN PrintT(ToJson([header |-> [schema |-> Catalog, vartypes |-> VarTypes, varlits |-> VarLits, nnpos |-> NNPos, extraname |-> ExtraName, ninit |-> NTypes + Len(Pairs)]]))
+          THEN PrintT(ToJson([header |-> [schema |-> Catalog, vartypes |-> VarTypes, varlits |-> VarLits, nnpos |-> NNPos, extraname |-> ExtraName, hosts |-> Hosts, cat |-> Cat,
+                                          ninit |-> NTypes + Len(Multis) + Len(Hosts)]]))
           ELSE TRUE
 GenConstraint == Emit /\ Header
 
@@ -54,7 +69,9 @@ GenConstraint == Emit /\ Header
 IsCase == st.stage = "case"
 One == st.vars[1]
 T1 == VarTypes[One.tix]
-HasVal == IsCase /\ Len(st.vars) = 1 /\ st.vm = "obj" /\ One.val.t # "x"
+HasVal == IsCase /\ Len(st.vars) = 1 /\ st.vm = "obj" /\ One.val.t # "x" /\ st.dupv.t = "x"
+RECURSIVE BaseName(_)
+BaseName(T) == IF T.k = "named" THEN T.n ELSE BaseName(T.of)
 \* Coercible and Errs are two readings of the same rules
 ErrsAgree == IsCase => (Expected(st) <=> ExpectedErrs(st) = {})
 \* 3.12: Non-Null adds exactly the rejection of null
@@ -73,9 +90,9 @@ NumLaw == HasVal => /\ Coercible(Catalog, Named("Int"), One.val) => Coercible(Ca
 \* the canonical values are what their names say
 GoodBad == st.stage = "type" => /\ Coercible(Catalog, VarTypes[st.tix], Good(VarTypes[st.tix]))
                                /\ Coercible(Catalog, VarTypes[st.tix], Full(VarTypes[st.tix], 2))
-                               /\ (~Coercible(Catalog, VarTypes[st.tix], Bad(VarTypes[st.tix])) \/ VarTypes[st.tix] = Named("Blob"))
+                               /\ (~Coercible(Catalog, VarTypes[st.tix], Bad(VarTypes[st.tix])) \/ BaseName(VarTypes[st.tix]) = "Blob")
 \* no declared variable without value and default is accepted when it is Non-Null (6.1.2), whatever the request shape
-AbsentLaw == IsCase /\ Len(st.vars) = 1 /\ One.val.t = "x" => (Expected(st) <=> (One.dm = "def" \/ T1.k # "nn"))
+AbsentLaw == IsCase /\ Len(st.vars) = 1 /\ One.val.t = "x" /\ st.dupv.t = "x" => (Expected(st) <=> (One.dm = "def" \/ T1.k # "nn"))
 \* an undeclared variable changes nothing
 ExtraLaw == IsCase /\ st.extra => (Expected(st) <=> Expected([st EXCEPT !.extra = FALSE]))
 =============================================================================
